@@ -291,8 +291,12 @@ func GetOutputNodes(root *html.Node) []*html.Node {
 			return false
 
 		case html.ElementNode:
-			// Hidden elements (and script, style, etc. whose default
-			// display is none) must not end up in the output.
+			// Hidden elements must not end up in the output, and neither
+			// must script and style, whatever display they claim inline.
+			if tagName := dom.TagName(node); tagName == "script" || tagName == "style" {
+				return false
+			}
+
 			if !IsProbablyVisible(node) {
 				return false
 			}
